@@ -84,3 +84,20 @@ Theorem C05_parser_total : forall fx data, bytes_ok data ->
   ParserModel.parse_ex fx data <> Panic /\ ParserModel.parse_ex fx data <> Err ParserModel.EOutOfFuel.
 Proof. exact ParserSafety.parse_ex_safe. Qed.
 Print Assumptions C05_parser_total.
+
+(** The MaxChunkPayload guard of ReadChunkHeader excludes every size for which the
+    uint32 chunk-size arithmetic (chunkTotalSize) would wrap; at the boundary:
+    0xFFFFFFF6 admitted, 0xFFFFFFF7 refused (its uint32 total would be 0). *)
+From Webp Require Riff.MuxModel Riff.MuxRoundtrip.
+Theorem C05_chunk_size_guard_excludes_uint32_wrap : forall d id sz, bytes_ok d ->
+  read_chunk_header d = Ok (id, sz) ->
+  MuxModel.chunk_total sz = 8 + sz + sz mod 2 /\ 8 + sz + sz mod 2 < 4294967296 /\ 0 <= sz.
+Proof. exact MuxRoundtrip.chunk_guard_no_u32_wrap. Qed.
+Print Assumptions C05_chunk_size_guard_excludes_uint32_wrap.
+
+Theorem C05_chunk_size_guard_boundary :
+  read_chunk_header ([65;66;67;68] ++ le32 4294967286) = Ok (1145258561, 4294967286) /\
+  read_chunk_header ([65;66;67;68] ++ le32 4294967287) = Err E_big /\
+  MuxModel.chunk_total 4294967287 = 0.
+Proof. exact MuxRoundtrip.chunk_guard_boundary. Qed.
+Print Assumptions C05_chunk_size_guard_boundary.
